@@ -770,7 +770,8 @@ class MembersType(StandardEncodeMixin, StandardDecodeMixin, Type):
         # Decode additions (even if out of data already, so defaults can be added)
         if self.additions:
             offset, out_of_data = self.decode_members(flatten(self.additions), data, values, offset, end_offset,
-                                                      ignore_missing=True)
+                                                      ignore_missing=True,
+                                                      out_of_data=out_of_data)
 
         if out_of_data:
             return values, offset
@@ -827,7 +828,8 @@ class MembersType(StandardEncodeMixin, StandardDecodeMixin, Type):
 
         return values, offset
 
-    def decode_members(self, members, data, values, offset, end_offset, ignore_missing=False):
+    def decode_members(self, members, data, values, offset, end_offset, ignore_missing=False,
+                       out_of_data=False):
         """
         Decode values for members from data starting from offset
         Supports member data encoded in different order than members specified
@@ -841,8 +843,10 @@ class MembersType(StandardEncodeMixin, StandardDecodeMixin, Type):
         """
         # Decode member values from data
         remaining_members = members
-        # Outer loop to enable decoding members out of order
-        while True:
+        # Outer loop to enable decoding members out of order. Nothing
+        # is read if the end of the data (for indefinite length: the
+        # end-of-contents octets) has already been reached.
+        while not out_of_data:
             undecoded_members = []
             decode_success = False  # Whether at least one member was successfully decoded
 
